@@ -32,11 +32,13 @@ func langApp(code1, code2 string) *app.Res {
 	}
 	rs.Funcs["setone"] = setter(code1)
 	rs.Funcs["settwo"] = setter(code2)
-	rs.Funcs["info"] = app.Static("info")
+	// ordinary functions whose content happens to read like a language code:
+	// without the LANG flag it is content, not a selection
+	rs.Funcs["info"] = app.Static("fra")
 	rs.Node("root", "root", app.Code().MOut("one", "1").MOut("two", "2").MOut("show", "3").Halt().InCmp("pickone", "1").InCmp("picktwo", "2").InCmp("show", "3").Bytes())
 	// after the switch the same run goes on and looks a function up again
 	// (LOAD of another symbol before the HALT): already in the new language
-	rs.Funcs["after"] = app.Static("after")
+	rs.Funcs["after"] = app.Static("nor")
 	rs.Node("pickone", "picked", app.Code().Load("setone", 10).Load("after", 10).MOut("back", "0").Halt().InCmp("_", "0").Bytes())
 	rs.Node("picktwo", "picked", app.Code().Load("settwo", 10).Load("after", 10).MOut("back", "0").Halt().InCmp("_", "0").Bytes())
 	rs.Node("show", "show {{.info}}", app.Code().Load("info", 10).Map("info").MOut("back", "0").Halt().InCmp("_", "0").Bytes())
